@@ -407,7 +407,8 @@ def run_framer(h: Harness, source, **kw):
     args = ", ".join(f"{k}={k}" for k in kw)
     h.it.events.clear()
     size = len(source) if isinstance(source, (bytes, bytearray)) else int(source.attrs.get("__size__", 4096))
-    h.it.max_steps = 50_000 + 400 * size        # a terminating framer needs a few dozen steps per byte at most
+    # a terminating framer needs a few dozen interpreter steps per byte for tiny fragments and ~100 per packet
+    h.it.max_steps = 50_000 + 400 * min(size, 70_000) + size // 200
     try:
         kind, got = h.outcome(f"ccsds_generator(src{', ' + args if args else ''})", PK, src=source, **kw)
     except StepLimit:
